@@ -413,6 +413,10 @@ func check(c Case) (o h.Outcome) {
 				}
 			}
 		}
+		if len(me) != len(got) {
+			o.Fail("multi-error-members:repeated", "multi-error has %d members for the %d failing parts %v: a part is reported more than once\nmembers=%v\ncase=%s", len(me), len(got), keys(got), me, dump(c))
+			return
+		}
 		if fmt.Sprint(keys(got)) != fmt.Sprint(keys(failing)) {
 			o.Fail("multi-error-members:"+classOf(diff(keys(failing), keys(got))), "multi-error members %v are not exactly the failing parts %v\ncase=%s", keys(got), keys(failing), dump(c))
 			return
